@@ -218,6 +218,34 @@ fn braid_case(ctx: &mut Ctx, rng: &mut Rng, table_idx: Option<usize>) {
         Some(i) => { let name = &braid_table()[i]; match load_braid(name) { Some((n, w)) => (n, w, format!("braid table {name}")), None => { ctx.inconclusive("table_unreadable"); return } } }
         None => { let (n, w) = random_braid(rng, 8, 20); (n, w, "random braid".to_string()) }
     };
+    // braid-word algebra: inv() is the group inverse (letters inverted AND reversed), product concatenates,
+    // From<[i32]> / FromIterator / elements() / strands() / len() agree with the word, table braids load as stored
+    {
+        let (w3, name3) = (w.clone(), table_idx.map(|i| braid_table()[i].clone()));
+        let r = guarded(move || {
+            let b = to_braid(n, &w3);
+            let letters = |x: &yui_link::Braid| -> Vec<i32> { x.elements().iter().map(|g| if g.sign().is_positive() { g.index() as i32 } else { -(g.index() as i32) }).collect() };
+            let inv = letters(&b.inv());
+            let prod = letters(&(&b * &b.inv()));
+            let fi: yui_link::Braid = w3.iter().cloned().collect();
+            let loaded = name3.map(|nm| yui_link::Braid::load(&nm).ok().map(|x| (letters(&x), x.strands())));
+            (letters(&b), b.strands(), b.len(), inv, prod, letters(&fi), fi.strands(), loaded, b.inv().inv() == b || letters(&b.inv().inv()) == letters(&b))
+        });
+        let wit = json!({"origin": origin, "strands": n, "word": w});
+        match r {
+            Ok((lw, st, len, inv, prod, fi, fist, loaded, invinv)) => {
+                let exp_inv: Vec<i32> = w.iter().rev().map(|x| -x).collect();
+                let exp_prod: Vec<i32> = w.iter().cloned().chain(exp_inv.iter().cloned()).collect();
+                let used = w.iter().map(|x| x.unsigned_abs() as usize + 1).max().unwrap_or(0);
+                if lw != w || st != n || len != w.len() { ctx.violation("C18/braid-word", "elements() / strands() / len() differ from the word the braid was built from", wit); return }
+                if inv != exp_inv || !invinv { ctx.violation("C18/braid-inverse", &format!("inv() = {:?}, the group inverse of the word is {:?}", inv, exp_inv), wit); return }
+                if prod != exp_prod { ctx.violation("C18/braid-product", "b * b.inv() is not the concatenation of the two words", wit); return }
+                if fi != w || fist != used { ctx.violation("C18/braid-from-iter", &format!("FromIterator gives the word {:?} on {fist} strands, expected {:?} on {used}", fi, w), wit); return }
+                if let Some(l) = loaded { match l { Some((lw2, ls)) => { if lw2 != w || ls != n { ctx.violation("C18/braid-load", "Braid::load differs from the stored word", wit); return } } None => { ctx.violation("C18/braid-load", "Braid::load failed for a table braid", wit); return } } }
+            }
+            Err(p) => { ctx.violation("C18/braid-word-panic", &format!("braid word operations panicked: {}", p.brief()), wit); return }
+        }
+    }
     let Ok(own) = braid_closure(n, &w) else { ctx.inconclusive("generator_free_loop"); return };
     let w2 = w.clone();
     let res = guarded(move || { let l = to_braid(n, &w2).closure(); (lib_to_pd(&l), l.components().len(), l.writhe(), l.crossing_num()) });
